@@ -198,30 +198,23 @@ class Ref:
         raw[name], src[name] = self.initials[name], "initial"
       else:
         raw[name], src[name] = TTML_DEFAULTS[name], "default"
-    # writing mode implies direction on regions
-    if is_region:
-      wm_src = src["WritingMode"]
+    # writing mode implies direction on regions (TTML2 10.2.12.1).  Two readings are possible when animation or initial values
+    # are involved: (A) the computed writing mode implies the direction unless a direction is specified; (B) only a specified
+    # writing mode does, and it also overrides an animated direction.  The property text does not choose: where the readings
+    # disagree the value is UNKNOWN (not asserted, and propagated as such to descendants that inherit it).
+    if is_region and "Direction" not in n["styles"]:
+      def implied(wm):
+        return s.DirectionType.ltr if wm is s.WritingModeType.lrtb else s.DirectionType.rtl
       wm = raw["WritingMode"]
-      dsrc = src["Direction"]
-      if "Direction" in n["styles"]:
-        pass                                    # specified direction (or animation of it) stands
-      elif dsrc in ("anim", "anim-multi"):
-        if wm not in VERTICAL:
-          raw["Direction"], src["Direction"] = UNKNOWN, "unknown"   # animated direction vs implied one: not determined
-      elif wm_src == "spec":
-        if wm not in VERTICAL:
-          raw["Direction"] = s.DirectionType.ltr if wm is s.WritingModeType.lrtb else s.DirectionType.rtl
+      a_val = implied(wm) if wm not in VERTICAL else raw["Direction"]
+      wm_spec = n["styles"].get("WritingMode")
+      b_val = implied(wm_spec) if wm_spec is not None and wm_spec not in VERTICAL else raw["Direction"]
+      if a_val is b_val:
+        if a_val is not raw["Direction"] or (wm not in VERTICAL and src["WritingMode"] == "spec"):
           src["Direction"] = "implied"
-      elif wm_src in ("anim", "anim-multi"):
-        if wm not in VERTICAL:
-          implied = s.DirectionType.ltr if wm is s.WritingModeType.lrtb else s.DirectionType.rtl
-          if implied is not raw["Direction"]:
-            raw["Direction"], src["Direction"] = UNKNOWN, "unknown"  # animated writing mode: see DESIGN C03 (c')
-      else:  # writing mode from initial / default
-        if wm not in VERTICAL:
-          implied = s.DirectionType.ltr if wm is s.WritingModeType.lrtb else s.DirectionType.rtl
-          if implied is not raw["Direction"]:
-            raw["Direction"], src["Direction"] = UNKNOWN, "unknown"
+        raw["Direction"] = a_val
+      else:
+        raw["Direction"], src["Direction"] = UNKNOWN, "unknown"
     c = {}
     alt = {}
     # font size first: everything relative depends on it
